@@ -107,6 +107,8 @@ Inductive sop :=
 (* reads through a slice accessor: mark nothing *)
 | ORead (blen addr : N) | OReadSlice (blen addr : N) | OLoad (sz addr : N)
 | OCopyTo (esz blen : N) | OWriteTo (cnt addr : N) | OWriteAllTo (cnt addr : N)
+| OWriteToFd (cnt addr : N) (fderr : bool)   (* write_volatile_to into a descriptor: one write(2) taking everything or failing;
+                                               io.rs write_volatile_raw_fd - never marks, not even on the error path *)
 (* typed reference *)
 | ORefStore | ORefLoad
 (* element array *)
@@ -200,6 +202,10 @@ Definition run_sop (ri : nat) (hostmod : N) (a : acc) (o : sop) : outcome1 :=
   | KSlice, OWriteAllTo cnt addr =>
       match checked_add addr cnt with
       | None => fail | Some e => if a_len a <? e then fail else done cnt [] end
+  | KSlice, OWriteToFd cnt addr fderr =>
+      match checked_sub (a_len a) addr with
+      | None => fail
+      | Some l => if fderr then fail else done (N.min l cnt) [] end
   | KRef, ORefStore => done (a_len a) [weff ri a 0 (a_len a)]
   | KRef, ORefLoad => done (a_len a) []
   | KArr esz n, OArrStore i =>
